@@ -389,6 +389,18 @@ theorem mutate_quiet (E : Env) (st : St) (k : HKey) (m : Mutation) (hq : QuietIn
       · exact runCont_quiet E st k _ c _ hq
       · exact triv
     · exact triv
+  | listSlice c i j xs =>
+    simp only [mutate]; split
+    · split
+      · exact runCont_quiet E st k _ c _ hq
+      · exact triv
+    · exact triv
+  | listStride c i step xs =>
+    simp only [mutate]; split
+    · split
+      · exact runCont_quiet E st k _ c _ hq
+      · exact triv
+    · exact triv
   | listClear c =>
     simp only [mutate]; split
     · exact runCont_quiet E st k _ c _ hq
